@@ -120,9 +120,6 @@ def field_props(d, f, opkind):
     if f["kind"] in ("enum", "optenum", "nested"):
         props.add("C08")
     props.add("C16")
-    bw = render.base_width(d)
-    if bw is not None and bw not in gen.NATIVE:
-        props.add("C11")
     return props
 
 
@@ -281,6 +278,8 @@ def evaluate(prop, res):
                 add("violation", "with_ modified its receiver", {"line": fl, "declaration": name})
             elif tag == "REWRAP-DIFF" and prop == "C11":
                 add("violation", "value and its re-wrapped copy differ through a getter", {"line": fl, "declaration": name})
+            elif tag == "HIDDEN-STATE" and prop == "C11":
+                add("violation", "an operation created state above bit N-1 of the storage", {"line": fl, "declaration": name})
             elif tag in ("HIST-PANIC", "RUN-PANIC") and prop in ("C12", "C16"):
                 add("violation", "unexpected panic", {"line": fl, "declaration": name})
     # dev vs release traces (C16)
@@ -310,6 +309,31 @@ def evaluate(prop, res):
                 cov["panics_oob" if ok else "panics_other"] += 1
                 if not ok:
                     add("violation", "operation panics", {"op": l, "declaration": w[1]})
+
+    # ---- declarations rustc accepted but whose runner code does not compile ------------------------------------------
+    for name, errs in res.get("runner_dropped", {}).items():
+        d = table.get(name)
+        if d is None:
+            continue
+        ps = set()
+        text = " ".join(errs)
+        if "size_of" in text or "align_of" in text or "Copy" in text or "evaluation of constant" in text or "evaluation panicked" in text:
+            ps.add("C06")
+        if d["kind"] == "bitenum":
+            ps.add("C07")
+        else:
+            for f in d["fields"]:
+                ps |= field_props(d, f, "get") | field_props(d, f, "write")
+            ps |= {"C06", "C12", "C17"}
+            if d.get("debug"):
+                ps.add("C19")
+            if "builder" in d["classes"]:
+                ps |= {"C13", "C14"}
+        if prop in ps:
+            if prop == "C06" and "C06" in ps and ("size_of" in text or "Copy" in text or "evaluation" in text):
+                add("violation", "layout / Copy assertion fails to compile", {"declaration": name, "errors": errs[:3], "source": decl_source(table, d)[0]})
+            else:
+                add("correspondence", "the generated use of this declaration does not compile", {"declaration": name, "errors": errs[:3]})
 
     # ---- verdicts (C09 / C10) --------------------------------------------------------------------------
     if prop in ("C09", "C10"):
@@ -434,6 +458,34 @@ def evaluate(prop, res):
                 add("violation", "builder() is %s although the declaration is %s" % ("offered" if real_has else "missing", "sound and complete" if sound else "unsound or incomplete"),
                     {"declaration": name, "source": src, "double_covered": sorted(p for p, v in counts.items() if v > 1)[:8]})
             # type-state chain of the real expansion: impl headers Partial<prev> … -> Partial<next>
+    # ---- compile-time probes (C14 type-state, C17 presence / absence) -------------------------------------------------
+    if prop in ("C14", "C17"):
+        pr = res.get("probes", {})
+        for e in pr.get("list", []):
+            is14 = ("chain" in e["what"] or "build()" in e["what"] or "field first" in e["what"] or "field twice" in e["what"])
+            if (prop == "C14") != is14:
+                continue
+            cov["probes_" + e["expect"]] += 1
+            if e["expect"] != e["got"]:
+                d = table.get(e["decl"])
+                src = decl_source(table, d)[0] if d else ""
+                add("violation", "compile-time probe: %s %s" % (e["what"], "compiles although it must not" if e["got"] == "ok" else "does not compile"),
+                    {"declaration": e["decl"], "probe": e["what"], "errors": e["errors"], "source": src})
+        if pr.get("fail"):
+            add("correspondence", "the probe crate produced unattributed errors", {"errors": pr["fail"]})
+    # ---- C15: const items evaluated by rustc vs run time -------------------------------------------------------------
+    if prop == "C15":
+        for prof in res["profiles"]:
+            for fl in res["flags"].get(prof, []):
+                if fl.startswith("CONST-DIFF"):
+                    w = fl.split(" ")
+                    add("violation", "compile-time result differs from run-time result", {"line": fl, "declaration": w[1], "profile": prof})
+        cov["const_evaluated"] = res.get("const_ok", 0)
+        for name, errs in res.get("runner_dropped", {}).items():
+            text = " ".join(errs)
+            if "non-const" in text or "E0015" in text or "in constants" in text or "const fn" in text:
+                d = table.get(name)
+                add("violation", "a listed operation is not usable in const context", {"declaration": name, "errors": errs[:3], "source": decl_source(table, d)[0] if d else ""})
     # ---- C18: token scan -------------------------------------------------------------------------------------------
     if prop == "C18":
         for name, sc in res.get("token_scan", {}).items():
@@ -473,8 +525,8 @@ REQUIRED_COVERAGE = {
     "C05": ["ops_get", "ops_with"], "C06": ["ops_rt", "ops_zero", "ops_default"], "C07": ["ops_enew", "ops_eraw"],
     "C08": ["ops_get", "ops_with"], "C09": ["decls_valid", "decls_invalid"], "C10": ["decls_valid", "decls_invalid"],
     "C11": ["ops_hist", "ops_rt"], "C12": ["ops_hist"], "C13": ["ops_build"], "C14": ["builder_yes", "builder_no"],
-    "C15": ["const_items"], "C16": ["ops_get", "ops_with", "profile_lines_compared"], "C17": ["accessor_items"],
-    "C18": ["doc_items", "expansions_scanned"], "C19": ["ops_dbg", "debug_invalid_decls"],
+    "C15": ["const_items", "const_evaluated"], "C16": ["ops_get", "ops_with", "profile_lines_compared"], "C17": ["accessor_items", "probes_ok", "probes_err"],
+    "C18": ["doc_items", "expansions_scanned", "nostd_decls"], "C19": ["ops_dbg", "debug_invalid_decls"],
 }
 
 
